@@ -49,8 +49,8 @@ var PtrKeys = KeyKind[*int]{Name: "ptr",
 	},
 	Strict: func(k *int) int { return *k }}
 
-
 var IntKeys = KeyKind[int]{Name: "int", Mk: func(i int) int { return i }, Un: func(k int) int { return k }}
+
 // IntZeroKeys shifts by one so that the Go zero value (0) is a legitimate key.
 var IntZeroKeys = KeyKind[int]{Name: "int0", Mk: func(i int) int { return i - 1 }, Un: func(k int) int { return k + 1 }}
 var StringKeys = KeyKind[string]{Name: "string",
@@ -85,6 +85,7 @@ var Orders = map[string]func(a, b int) int{
 		return sgn(a - b)
 	},
 }
+
 // Canon maps a logical key to a canonical representative of its equivalence class.
 var Canon = map[string]func(int) int{
 	"nat":       func(a int) int { return a },
@@ -127,15 +128,15 @@ type Coll[K any] interface {
 
 type mapColl[K any] struct{ m tree.Map[K, *Val] }
 
-func (c mapColl[K]) IsMap() bool          { return true }
-func (c mapColl[K]) Put(k K, v *Val)      { c.m.Put(k, v) }
-func (c mapColl[K]) Delete(k K)           { c.m.Delete(k) }
-func (c mapColl[K]) Get(k K) *Val         { return c.m.Get(k) }
-func (c mapColl[K]) Contains(k K) bool    { return c.m.Contains(k) }
-func (c mapColl[K]) Len() int             { return c.m.Len() }
-func (c mapColl[K]) First() (K, *Val)     { return c.m.First() }
-func (c mapColl[K]) Last() (K, *Val)      { return c.m.Last() }
-func (c mapColl[K]) Copy() Coll[K]        { m2 := c.m; return mapColl[K]{m2} }
+func (c mapColl[K]) IsMap() bool                     { return true }
+func (c mapColl[K]) Put(k K, v *Val)                 { c.m.Put(k, v) }
+func (c mapColl[K]) Delete(k K)                      { c.m.Delete(k) }
+func (c mapColl[K]) Get(k K) *Val                    { return c.m.Get(k) }
+func (c mapColl[K]) Contains(k K) bool               { return c.m.Contains(k) }
+func (c mapColl[K]) Len() int                        { return c.m.Len() }
+func (c mapColl[K]) First() (K, *Val)                { return c.m.First() }
+func (c mapColl[K]) Last() (K, *Val)                 { return c.m.Last() }
+func (c mapColl[K]) Copy() Coll[K]                   { m2 := c.m; return mapColl[K]{m2} }
 func (c mapColl[K]) Shape(n bool) tree.VerifShape[K] { return c.m.VerifShape(n) }
 func (c mapColl[K]) Iterate() iterator.Iterator[tree.KVPair[K, *Val]] {
 	return c.m.Iterate()
@@ -156,15 +157,15 @@ func (l liftIter[K]) Next() (tree.KVPair[K, *Val], bool) {
 	return tree.KVPair[K, *Val]{Key: k}, ok
 }
 
-func (c setColl[K]) IsMap() bool       { return false }
-func (c setColl[K]) Put(k K, v *Val)   { c.s.Add(k) }
-func (c setColl[K]) Delete(k K)        { c.s.Remove(k) }
-func (c setColl[K]) Get(k K) *Val      { return nil }
-func (c setColl[K]) Contains(k K) bool { return c.s.Contains(k) }
-func (c setColl[K]) Len() int          { return c.s.Len() }
-func (c setColl[K]) First() (K, *Val)  { return c.s.First(), nil }
-func (c setColl[K]) Last() (K, *Val)   { return c.s.Last(), nil }
-func (c setColl[K]) Copy() Coll[K]     { s2 := c.s; return setColl[K]{s2} }
+func (c setColl[K]) IsMap() bool                     { return false }
+func (c setColl[K]) Put(k K, v *Val)                 { c.s.Add(k) }
+func (c setColl[K]) Delete(k K)                      { c.s.Remove(k) }
+func (c setColl[K]) Get(k K) *Val                    { return nil }
+func (c setColl[K]) Contains(k K) bool               { return c.s.Contains(k) }
+func (c setColl[K]) Len() int                        { return c.s.Len() }
+func (c setColl[K]) First() (K, *Val)                { return c.s.First(), nil }
+func (c setColl[K]) Last() (K, *Val)                 { return c.s.Last(), nil }
+func (c setColl[K]) Copy() Coll[K]                   { s2 := c.s; return setColl[K]{s2} }
 func (c setColl[K]) Shape(n bool) tree.VerifShape[K] { return c.s.VerifShape(n) }
 func (c setColl[K]) Iterate() iterator.Iterator[tree.KVPair[K, *Val]] {
 	return liftIter[K]{c.s.Iterate()}
